@@ -284,7 +284,7 @@ def drive(odfdo, A, spec, pool):
             s = op[1]
             el = odfdo.Element.from_tag(style_xml(t, s)) if s.get('how', 'xml') == 'xml' else odfdo.Style(s['family'], name=s.get('name'))
             style_abs = A.entry(el._Element__element)
-            kw = dict(automatic=op[2] == 'automatic', default=op[2] == 'default')
+            kw = dict(automatic=op[2] in ('automatic', 'both'), default=op[2] in ('default', 'both'))
             if op[3] is not None: kw['name'] = op[3]
             try:
                 ret = doc.insert_style(el, **kw)
@@ -294,7 +294,7 @@ def drive(odfdo, A, spec, pool):
                 except Exception:
                     found = None
                 impl = ('done', (post, A.name(ret)))
-                if ret is not None or op[2] == 'default':
+                if ret is not None or op[2] in ('default', 'both'):
                     registry.append((s['family'], ret))
                 if ret is not None and s['family'] in t['fam_id']:
                     promises[:] = [q for q in promises if q[1] != ret]          # redefined on purpose (or shadowed: F96)
@@ -325,7 +325,7 @@ def drive(odfdo, A, spec, pool):
             for slot, s in (op[3] if len(op) > 3 else []):
                 A.roots(other)[slot // 4].find(OF + KINDS[slot % 4]).append(etree.fromstring(s['xml'].replace('<number:text-style', '<number:text-style ' + XMLNS, 1) if 'xml' in s else style_xml(t, s)))
             for s, mode in op[2]:
-                try: other.insert_style(odfdo.Element.from_tag(style_xml(t, s)), automatic=mode == 'automatic', default=mode == 'default')
+                try: other.insert_style(odfdo.Element.from_tag(style_xml(t, s)), automatic=mode in ('automatic', 'both'), default=mode in ('default', 'both'))
                 except Exception: pass
             opre, _ = A.store(other)
             try:
@@ -488,11 +488,15 @@ NAMES = ['A', 'B', 'Standard', 'odfdo_auto_1', 'odfdo_auto_3', 'odfdo_auto_007',
 SPECIAL = ('master-page', 'font-face', 'page-layout')
 
 
+STD_ = set()
+MODES = ('common', 'automatic', 'default', 'both')        # flags (automatic, default) = (F,F) (T,F) (F,T) (T,T)
+
+
 def in_domain(t, fam, mode, name):
-    """default=True is documented for the standard families only; master pages, font faces and page layouts are
-    identified by their name (an unnamed one cannot be looked up), and the flags do not apply to them"""
-    if mode == 'default' and fam not in t['STD']: return False
-    if fam in SPECIAL and (name is None or mode != 'common'): return False
+    """every family x every flag combination the code accepts (the rejected ones are generated too: both sides must
+    reject).  Master pages, font faces and page layouts are identified by their name (an unnamed one cannot be looked
+    up); for them the flags are accepted: font-face + default goes to styles.xml, otherwise the flags are ignored."""
+    if fam in SPECIAL and name is None: return False
     return True
 
 
@@ -524,11 +528,13 @@ def gen_history(rng, t, templates, samples, names_by_doc):
         if r < 0.62:
             s = gen_style(rng, t, ex)
             mode = rng.choice(['common', 'common', 'automatic', 'automatic', 'default'])
-            if mode == 'default' and s['family'] not in t['STD']:
+            if mode == 'default' and s['family'] not in t['STD'] and s['family'] not in SPECIAL and rng.random() < 0.85:
                 s['family'] = rng.choice(t['STD'])          # default styles are documented for the standard families
             if s['family'] in SPECIAL:
-                mode = 'common'
+                mode = rng.choice(MODES)                    # font face: default -> styles.xml; otherwise flags ignored
                 if s['name'] is None: s['name'] = rng.choice(NAMES)
+            elif rng.random() < 0.04:
+                mode = 'both'                               # rejected combination
             name_arg = rng.choice(NAMES + ex[:5]) if rng.random() < 0.15 else None
             ops.append(['insert', s, mode, name_arg])
         elif r < 0.70: ops.append(['table', rng.randrange(5), rng.random() < 0.5])
@@ -537,7 +543,8 @@ def gen_history(rng, t, templates, samples, names_by_doc):
         elif r < 0.92:
             other = rng.choice(templates) if rng.random() < 0.6 or not samples else rng.choice(samples)
             extra = [(gen_style(rng, t, ex), rng.choice(['common', 'automatic', 'default'])) for _ in range(rng.randint(0, 3))]
-            extra = [(s_, m_) for s_, m_ in extra if in_domain(t, s_['family'], m_, s_['name']) and (s_['name'] is not None or m_ != 'common')]
+            extra = [(s_, m_) for s_, m_ in extra if in_domain(t, s_['family'], m_, s_['name']) and (s_['name'] is not None or m_ != 'common')
+                     and not (m_ == 'default' and s_['family'] not in t['STD'])]
             ops.append(['merge', other, extra])
         else: ops.append(['reload'])
     if rng.random() < 0.5: ops.append(['reload'])
@@ -551,7 +558,7 @@ def gen_cases(tier, rng, t, templates, samples, names_by_doc):
         for fi, fam in enumerate(sorted(t['FM'])):
             if tier == 'quick' and tpl in ('presentation', 'drawing') and fi % 3 != (0 if tpl == 'presentation' else 1):
                 continue            # the two big templates: every third family in the quick tier (all of them in thorough)
-            for mode in ('common', 'automatic', 'default'):
+            for mode in MODES:
                 for nm in ('N1', None):
                     if not in_domain(t, fam, mode, nm): continue
                     s = dict(family=fam, name=nm, variant=1, how='xml')
@@ -749,6 +756,8 @@ def key_of(code, kind, spec, si, err):
         return "get_styles/element-with-style-name-that-is-no-style-class"
     if code == 1 and kind == 'table': return "set_table_displayed/default-table-style-cloned-into-automatic-styles"
     if code == 6: return "merge_styles_from/other-document-emptied"
+    if kind == 'insert' and code in (2, 3, 4) and op[0] == 'insert' and op[2] == 'default' and op[1]['family'] not in STD_ and op[1]['family'] not in SPECIAL:
+        return "insert_style/default-flag-on-non-standard-family"
     if code == 5 and kind == 'insert': return "insert_style/generated-name-equals-common-style-name"
     if code == 3 and kind == 'insert' and err == 'shadowed': return "insert_style/common-style-shadowed-by-content-style-of-same-name"
     if code == 11 and kind == 'pagebreak': return "add_page_break_style/existing-style-without-break-after"
@@ -807,6 +816,7 @@ def run(tier, seed, replay=None):
         tables, gen_error = None, str(e)
     known = {e["key"]: e for e in common.known_findings(PROP)}
     templates, samples = doc_pool()
+    if tables is not None: STD_.update(tables['STD'])
     if tables is None:
         # fail closed: the tables could not be read; keep the last generated file for the proofs, report
         proofs = common.build_proofs(PROP, extra_targets=["StylesChk"]) if (common.TH / "Gen_Contexts.v").exists() else None
